@@ -200,8 +200,8 @@ func ruleC11_7(c *Ctx) { c.boundsRule(true) }
 // or in a block dominated by the true edge of a "p != nil" test.
 func printerOnly(ins ssa.Instruction) bool {
 	fn := ins.Parent()
-	if fn.Parent() != nil && fn.Parent().Name() == "Disassemble" {
-		return true
+	if fn.Parent() != nil && (fn.Parent().Name() == "Disassemble" || isPrinterSignature(fn.Signature)) {
+		return true // the printer closure, built in Disassemble or in a helper of it
 	}
 	b := ins.Block()
 	for d := b; d != nil; d = d.Idom() {
@@ -547,4 +547,13 @@ func findPhiByKey(fr *sym.Frame, key string) *ssa.Phi {
 		}
 	}
 	return nil
+}
+
+// isPrinterSignature: func(b []byte, format string, args ...interface{}) - the shape of decode.printer.
+func isPrinterSignature(sig *types.Signature) bool {
+	if sig == nil || sig.Results().Len() != 0 || sig.Params().Len() != 3 || !sig.Variadic() {
+		return false
+	}
+	b, ok := sig.Params().At(1).Type().Underlying().(*types.Basic)
+	return tyIsByteSeq(sig.Params().At(0).Type()) && ok && b.Kind() == types.String
 }
